@@ -364,10 +364,12 @@ func (e *Engine) VerifyFunc(c *Contract) {
 		}
 		ast.Inspect(rq.Expr, func(n ast.Node) bool {
 			if call, ok := n.(*ast.CallExpr); ok {
-				if id, ok := call.Fun.(*ast.Ident); ok && id.Name == "held" && len(call.Args) == 1 {
-					key := "lock:" + exprString(call.Args[0])
-					if _, have := st.ghost[key]; !have {
-						st.ghost[key] = Var("held0:"+exprString(call.Args[0]), SBool)
+				if id, ok := call.Fun.(*ast.Ident); ok && (id.Name == "held" || id.Name == "xheld") && len(call.Args) == 1 {
+					for _, k := range []string{"lock:", "rlock:"} {
+						key := k + exprString(call.Args[0])
+						if _, have := st.ghost[key]; !have {
+							st.ghost[key] = Var(k+"0:"+exprString(call.Args[0]), SBool)
+						}
 					}
 				}
 			}
